@@ -15,13 +15,35 @@ TEMPLATE = {
     'opt': '--{k} {v}', 'sp_sq': "{k} '{v}'", 'sp_dq': '{k} "{v}"',
     'argv_flag': "'--{k}', '--flag', '{v}'", 'argv_u': "'{k}', '-f', u'{v}'", 'flag': '{k} --flag {v}',
 }
+SANITIZE = ['adminpass', 'admin_pass', 'password', 'admin_password', 'auth_token', 'new_pass',
+            'auth_password', 'secret_uuid', 'secret', 'sys_pswd', 'token', 'configdrive',
+            'chappassword', 'encrypted_key', 'private_key', 'fernetkey', 'sslkey', 'passphrase',
+            'cephclusterfsid', 'octaviaheartbeatkey', 'rabbitcookie', 'cephmanilaclientkey',
+            'pacemakerremoteauthkey', 'designaterndckey', 'cephadminkey', 'heatauthencryptionkey',
+            'cephclientkey', 'keystonecredential', 'barbicansimplecryptokek', 'cephrgwkey',
+            'swifthashsuffix', 'migrationsshkey', 'cephmdskey', 'cephmonkey', 'chapsecret']
 NEUTRAL = {'plain_a': 'INFO request 42 done;', 'plain_b': 'user=alice id:7 (ok)',
            'quoted_pair': "'user': 'bob'"}
+
+
+def compounds(key):
+    """Names in which another sanitize key overlaps the front of `key`."""
+    out = []
+    for j in SANITIZE:
+        if j == key:
+            continue
+        for ov in range(1, min(len(j), len(key))):
+            if j.endswith(key[:ov]) and not key.startswith(j):
+                out.append(j[:-ov] + key)
+    return sorted(set(out))
 
 
 def spell(key, how, rnd):
     if how == 'lower':
         return key
+    if how == 'glued':
+        opts = ['x_' + key, 'os-' + key, 'My' + key.capitalize(), 'new' + key] + compounds(key)
+        return rnd.choice(opts)
     if how == 'UPPER':
         return key.upper()
     if how == 'Capitalised':
@@ -77,13 +99,6 @@ class ROMapping(collections.abc.Mapping):
         return 'ROMapping(%r)' % (self._d,)
 
 
-SANITIZE = ['adminpass', 'admin_pass', 'password', 'admin_password', 'auth_token', 'new_pass',
-            'auth_password', 'secret_uuid', 'secret', 'sys_pswd', 'token', 'configdrive',
-            'chappassword', 'encrypted_key', 'private_key', 'fernetkey', 'sslkey', 'passphrase',
-            'cephclusterfsid', 'octaviaheartbeatkey', 'rabbitcookie', 'cephmanilaclientkey',
-            'pacemakerremoteauthkey', 'designaterndckey', 'cephadminkey', 'heatauthencryptionkey',
-            'cephclientkey', 'keystonecredential', 'barbicansimplecryptokek', 'cephrgwkey',
-            'swifthashsuffix', 'migrationsshkey', 'cephmdskey', 'cephmonkey', 'chapsecret']
 NEARMISS = ['passwor', 'tokem', 'secre', 'pass_word', 'ssl_key', 'admin-pass', 'auth tokem', 'fernet.key']
 
 
